@@ -54,6 +54,42 @@ def _literals_in(p, mod, fn_node, expr, any_expr=False):
     return R().visit(copy.deepcopy(expr))
 
 
+def _defs_in(p, fn, expr, _depth=0):
+    """`expr` with module-level names and class-level attributes (`cls.X` / `self.X` / `Class.X`) replaced by the expressions they are bound
+    to, whatever those are (a table of fields holding a call is not a pure literal, and is still the table)."""
+    if expr is None or _depth > 3:
+        return expr
+    bound = _locally_bound(fn.node)
+
+    class R(ast.NodeTransformer):
+        def visit_Name(self, n):
+            if isinstance(n.ctx, ast.Load) and n.id not in bound:
+                r = p.resolve_name(fn.module, n.id)
+                if r and r[0] == "assign" and not any(isinstance(x, ast.Name) and x.id == n.id for x in ast.walk(r[1][1])):
+                    return _defs_in(p, fn, copy.deepcopy(r[1][1]), _depth + 1)
+            return n
+
+        def visit_Attribute(self, n):
+            if isinstance(n.ctx, ast.Load) and isinstance(n.value, ast.Name):
+                owner = None
+                if fn.cls is not None and n.value.id in ("self", "cls", fn.self_name):
+                    owner = fn.cls
+                elif n.value.id not in bound:
+                    r = p.resolve_name(fn.module, n.value.id)
+                    owner = r[1] if r and r[0] == "class" else None
+                if owner is not None:
+                    for k in owner.mro:
+                        if not isinstance(k, str) and n.attr in k.class_assigns:
+                            v = k.class_assigns[n.attr][0]
+                            if v is not None and not any(isinstance(x, ast.Attribute) and x.attr == n.attr for x in ast.walk(v)):
+                                return _defs_in(p, fn, copy.deepcopy(v), _depth + 1)
+                            break
+            self.generic_visit(n)
+            return n
+
+    return R().visit(copy.deepcopy(expr))
+
+
 def _raise_guards(ctx, fn) -> list:
     """For every `raise` of the function: the conditions (temporaries expanded, hoisted literals back in place, predicates drawn from
     tables looked into) of the tests that dominate it."""
@@ -365,8 +401,11 @@ def _dataset_sinks(ctx, v, _depth=0, _stack=()) -> list:
     only reached through a table or as a bound method."""
     out = []
     for c in ast.walk(v.node):
-        if isinstance(c, ast.Call) and isinstance(c.func, ast.Attribute) and c.func.attr == "create_dataset" and any(k.arg == "data" for k in c.keywords):
-            out.append((v, c, next(k.value for k in c.keywords if k.arg == "data"), any(k.arg in ("dtype", "shape") for k in c.keywords)))
+        if isinstance(c, ast.Call) and isinstance(c.func, ast.Attribute) and c.func.attr in ("create_dataset", "require_dataset") and any(k.arg == "data" for k in c.keywords):
+            # an explicit dtype / shape marks a text or blob dataset — unless it merely repeats the array's own (`dtype=X.dtype, shape=X.shape`)
+            typed = any((k.arg == "dtype" and not (isinstance(k.value, ast.Attribute) and k.value.attr == "dtype"))
+                        or (k.arg == "shape" and not (isinstance(k.value, ast.Attribute) and k.value.attr == "shape")) for k in c.keywords)
+            out.append((v, c, next(k.value for k in c.keywords if k.arg == "data"), typed))
     if _depth >= 2:
         return out
     done = set()
@@ -631,6 +670,27 @@ def rule_ndvmap(ctx) -> RuleResult:
     return res
 
 
+def _code_units(p):
+    """Every function of the package in scope — and, per module, one pseudo function holding the statements that run at import time
+    (module level and class bodies): a constant computed once at module level is a site like any other."""
+    from ..model import FuncInfo
+
+    yield from p.all_functions()
+    for mod in p.modules.values():
+        if not mod.in_scope:
+            continue
+        body = []
+        for st in mod.tree.body:
+            if isinstance(st, ast.ClassDef):
+                body += [s for s in st.body if not isinstance(s, (ast.FunctionDef, ast.AsyncFunctionDef, ast.ClassDef))]
+            elif not isinstance(st, (ast.FunctionDef, ast.AsyncFunctionDef)):
+                body.append(st)
+        if body:
+            node = ast.FunctionDef(name="<module>", args=ast.arguments(posonlyargs=[], args=[], kwonlyargs=[], kw_defaults=[], defaults=[]), body=body,
+                                   decorator_list=[], lineno=1, col_offset=0)
+            yield FuncInfo(name="<module>", module=mod, node=node, cls=None, kind="function")
+
+
 def _codec_of(p, fn, L, expr):
     """The codec a call names: a string literal, or a name bound once (local, module or class level) to one.  None: not decidable here."""
     e = L.expand(expr)
@@ -657,7 +717,7 @@ def rule_codec(ctx) -> RuleResult:
     res = RuleResult("C08.CODEC", "C08", "every encode / decode site names the same codec (utf-8, explicitly or by default)", floor=5)
     p = ctx.p
     kinds_seen = set()
-    for fn in p.all_functions():
+    for fn in _code_units(p):
         L = None
         for c in ast.walk(fn.node):
             if not (isinstance(c, ast.Call) and isinstance(c.func, ast.Attribute) and c.func.attr in ("encode", "decode")):
@@ -744,18 +804,47 @@ def rule_narrow(ctx) -> RuleResult:
     )
     p = ctx.p
     nd = p.cls("NumericData")
+    from ..model import FuncInfo
+
     seen = set()
     for K in p.subclasses(nd):
-        fn = K.methods.get("format_type")
-        if fn is None or fn in seen:
+        m = K.lookup("format_type")
+        fn = m[2] if m and m[1] == "method" else None
+        if fn is None:
             continue
-        seen.add(fn)
         v = ctx.view(fn)
         L = Locals(v.node)
         g = CFG(v.node)
+        as_k = FuncInfo(name=fn.name, module=fn.module, node=v.node, cls=K, kind=fn.kind)  # the method as class K runs it (template method)
+        dom = None
+        # hooks: `self.h(..)` calls that stayed calls because subclasses override h — for class K they run K's own h
+        hooks = []
+        for n in g.nodes:
+            if n.kind != "stmt":
+                continue
+            for hc in ast.walk(n.ast):
+                if isinstance(hc, ast.Call) and isinstance(hc.func, ast.Attribute) and isinstance(hc.func.value, ast.Name) and hc.func.value.id == (fn.self_name or "self"):
+                    hm = K.lookup(hc.func.attr)
+                    if hm and hm[1] == "method" and hm[2].node is not fn.node:
+                        hooks.append((n, hm[2]))
+        key = (id(fn.node), tuple(sorted({id(h.node) for _n, h in hooks})),
+               tuple(unparse(_defs_in(p, as_k, ast.parse(t, mode="eval").body)) if t else "" for _c, t in _casts(v.node, L)))
+        specialised = bool(hooks) or any(isinstance(x, ast.Attribute) and isinstance(x.value, ast.Name) and x.value.id == (fn.self_name or "self")
+                                         for c_, _t in _casts(v.node, L) for a_ in (list(c_.args) + [k.value for k in c_.keywords]) for x in ast.walk(a_))
+        if key in seen or (specialised and p.is_abstract(K)):
+            continue
+        seen.add(key)
+        owner = K.name if specialised else fn.cls.name
         for c, tgt in _casts(v.node, L):
+            if specialised and tgt:
+                tgt = unparse(_defs_in(p, as_k, ast.parse(tgt, mode="eval").body))  # `self.stored_dtype` -> what class K binds it to
             cnodes = _cfg_nodes_of(g, c)
             tests = [_literals_in(p, fn.module, v.node, m, any_expr=True) for t in _deciding_guards(g, cnodes) for m in _test_meanings(ctx, v, L, t.ast)]
+            for hn, hfn in hooks:
+                dom = dom or dominators(g)
+                if all(cn in dom and hn in dom[cn] for cn in cnodes):  # the hook runs on every path to the cast: its raising guards guard the cast
+                    hv = ctx.view(hfn)
+                    tests += [t for ts in _raise_guards(ctx, hv) for t in ts]
             gtxt = " ; ".join(unparse(t) for t in tests)
             need = []
             if "float" in tgt:
@@ -770,7 +859,7 @@ def rule_narrow(ctx) -> RuleResult:
                 ok = any(t in gtxt for t in toks) or (pred is not None and any(pred(t) for t in tests))
                 res.inst(f"{K.name}.format_type: astype({tgt}) guarded against {label}: {ok} (guards: {gtxt[:80]})", nontrivial=True, ok=ok)
                 if not ok:
-                    res.find(fn.cls.name, "format_type", f"astype({tgt}) without a {label} guard", f"{fn.module.relpath}:{c.lineno}",
+                    res.find(owner, "format_type", f"astype({tgt}) without a {label} guard", f"{fn.module.relpath}:{c.lineno}",
                              f"values outside what {tgt} represents ({label}) are silently altered by the cast instead of being rejected")
         # the stored type is fixed: no normal path hands the values back without one of the casts (the no-data code, the range tests and
         # the reader's dtype list all assume it)
@@ -784,7 +873,7 @@ def rule_narrow(ctx) -> RuleResult:
             res.inst(f"{K.name}.format_type: every return passes a cast ({', '.join(t for _c, t in casts)})", nontrivial=True, ok=ok)
             if not ok:
                 at = loose[0].lineno if loose else fn.node.lineno
-                res.find(fn.cls.name, "format_type", "a path returns the values without the cast", f"{fn.module.relpath}:{at}",
+                res.find(owner, "format_type", "a path returns the values without the cast", f"{fn.module.relpath}:{at}",
                          "the in-memory dtype follows the caller's array instead of the stored type: the no-data code is substituted (and compared on "
                          "read) in a dtype that cannot hold it, and the returned array is the caller's own")
     # the keys of a value map are stored in an unsigned 32-bit field: the validation of the keys must reject what does not fit
@@ -794,13 +883,19 @@ def rule_narrow(ctx) -> RuleResult:
         wvv = ctx.view(wv)
         WL = Locals(wvv.node)
         narrow_keys = None
+        dtypes = []
         for c in ast.walk(wvv.node):
             if isinstance(c, ast.Call) and call_name(c) in ("array", "asarray", "fromiter", "astype", "dtype"):
                 dt = next((k.value for k in c.keywords if k.arg == "dtype"), None)
-                d = _literals_in(p, wv.module, wvv.node, WL.expand(dt)) if dt is not None else None
+                # the record dtype wherever it is written: in the call, a local, a module- or class-level table (even one that is not a pure literal)
+                d = _defs_in(p, wvv, WL.expand(dt)) if dt is not None else None
+                if d is not None:
+                    dtypes.append(d)
                 if d is not None and any((isinstance(x, ast.Constant) and isinstance(x.value, str) and x.value.lstrip("<>=|") in ("u4", "uint32"))
                                          or (isinstance(x, ast.Attribute) and x.attr == "uint32") for x in ast.walk(d)):
                     narrow_keys = c
+        if not any(isinstance(x, ast.Constant) and isinstance(x.value, str) for d in dtypes for x in ast.walk(d)):
+            raise AnalysisError("H5Writer.write_value_map: record dtype of the value map (field names / formats) not found")
         if narrow_keys is not None:
             st = rvm.props["map"].setter
             frames = [ctx.view(st)] + [ctx.view(m) for nm, m in rvm.methods.items() if nm in ("_validate_key_value", "__setitem__")]
@@ -856,7 +951,7 @@ def rule_json(ctx) -> RuleResult:
         floor=2,
     )
     p = ctx.p
-    for fn in p.all_functions():
+    for fn in _code_units(p):
         L = None
         for c in ast.walk(fn.node):
             if not (isinstance(c, ast.Call) and call_name(c) in ("dumps", "dump")):
